@@ -155,6 +155,13 @@ def shape_violation(res, kw, method):
     return None
 
 
+def is_inf(x):
+    try:
+        return x is not None and float(x) == float("inf")
+    except (TypeError, ValueError):
+        return False
+
+
 def check(case, ctx):
     cfg = case["cfg"]
     method = cfg["method"]
@@ -182,6 +189,8 @@ def check(case, ctx):
         ctx.label("singletons_phased=False")
     if kw.get("probability_space") == "linear":
         ctx.label("probability_space=linear")
+    if is_inf(kw.get("mutation_rate")):
+        ctx.label("mutation_rate=inf")
 
     with quiet():
         status, res = call(fn, ts, **kw)
@@ -217,6 +226,10 @@ def check(case, ctx):
     key = f"{exc_key(res)}[{ctxt}]"
     if invalid:
         key = f"invalid_not_rejected:{invalid}:{method}:{type(res).__name__}"
+    elif is_inf(kw.get("mutation_rate")):
+        # +inf is "positive", so the statement does not list it as invalid; it gets its own buckets so
+        # that the same assertion reached from finite input would still alarm
+        key = f"mutation_rate_inf:{exc_key(res)}[{ctxt}]"
     show = {k: v for k, v in kw.items() if k != "priors"}
     return [Violation(key, f"{type(res).__name__}: {str(res)[:200]!r} from {what}, kwargs={show!r}, "
                       f"mutators={case['mutators']}, class={invalid or 'valid'}")]
@@ -238,7 +251,7 @@ def extra(ctx, tier, shard):
     x both entry points, on two fixed inputs (deterministic; split over the shards)."""
     inputs = enumeration_inputs()
     cfgs = C.invalid_enumeration()
-    nshards = 4 if tier == "quick" else 16
+    nshards = max(1, getattr(ctx, "nshards", 1))
     k = 0
     for cfg in cfgs:
         for j, ts in enumerate(inputs):
